@@ -44,7 +44,7 @@ def check_marks(items, text, backend, li, what):
     prev = -1
     prev_end = -1
     for idx, t in enumerate(items):
-        s, e = t.start_mark, t.end_mark
+        s, e = getattr(t, "start_mark", None), getattr(t, "end_mark", None)
         if s is None or e is None:
             return "%s %d (%s) lacks a mark" % (what, idx, type(t).__name__)
         if not (0 <= s.index <= e.index <= n):
@@ -69,6 +69,8 @@ def check_marks(items, text, backend, li, what):
 def check_slices(tokens, text):
     for idx, t in enumerate(tokens):
         name = type(t).__name__
+        if getattr(t, "start_mark", None) is None or getattr(t, "end_mark", None) is None:
+            continue        # reported by check_marks
         s, e = t.start_mark.index, t.end_mark.index
         if name in ("AnchorToken", "AliasToken"):
             if text[s + 1:e] != t.value:
